@@ -82,7 +82,7 @@ def reader_unit_order_predicates(P, G):
     """predicates under which read.py selects loaders whose address algebra assumes unit-ordered storage:
     the tests guarding calls to the specialised (non-general) loaders.  -> {'3d': set(atoms), '2d': set(atoms)}, sites"""
     reader = P.cls('read.SgzReader')
-    preds = {'3d': [], '2d': []}
+    preds = {'3d': [], '2d': [], 'unguarded': []}
     for m in reader.methods.values():
         for e in G.callees(m):
             t = e.target
@@ -91,15 +91,20 @@ def reader_unit_order_predicates(P, G):
             if 'unshuffle' in t.name:
                 continue       # the general block-ordered loaders
             n = e.call
+            guarded = False
             while n is not None and n is not m.node:
                 if isinstance(n, ast.If):
                     at = blockshape_atoms(n.test)
                     inbody = any(e.call is x for s in n.body for x in ast.walk(s))
                     if at is not None and inbody:
                         dim = '2d' if t.cls.name.endswith('2d') else '3d'
+                        guarded = True
                         # the z-slice layout predicate (blockshape[2] == 4) is a different specialisation
                         if at != {(2, 4)}:
                             preds[dim].append((at, m, n))
                         break
                 n = parent(n)
+            if not guarded and not t.name.startswith('_') and t.name not in ('clear_cache', 'read_chunk_range') and \
+                    m.cls is reader and e.kind not in ('thread', 'pool'):
+                preds['unguarded'].append((m, e.call, t))
     return preds
